@@ -49,7 +49,18 @@ def run(ck, tier, seed):
             if not t:
                 continue
             ref = sfnt.read_cmap(t)["ref"]
-            fo.write(json.dumps({"id": os.path.basename(f), "font": f, "ref": ref}) + "\n")
+            pseudos = []
+            st = S.table("Silf")
+            if st:
+                try:
+                    from fontgen import silf as silfreader
+                    pseudos = [list(x) for x in silfreader.read_silf(st)["subtables"][0].get("pseudos", [])]
+                except Exception:
+                    pseudos = None
+            rec = {"id": os.path.basename(f), "font": f, "ref": ref}
+            if pseudos is not None:
+                rec["pseudos"] = pseudos
+            fo.write(json.dumps(rec) + "\n")
     exef = vlib.build_harness("fast")
     h2 = vlib.run_harness(exef, ["cmap", fonts, host, 1], timeout=6000)
     vlib.absorb(ck, h2)
@@ -59,4 +70,4 @@ def run(ck, tier, seed):
         ck.exhaustive = True
         ck.extra["exhaustive_note"] = "every one of the 0x110000 code points queried on direct and cached faces of every shipped font"
     ck.assumptions += ["OpenType cmap rule as written in spec/Cmap.tla (Ref) and, for shipped fonts, in fontgen/sfnt.py (independent reader)",
-                       "pseudo-glyph fallback: only that is_char_supported is consistent with cmap()+findPseudo (no shipped font has pseudo glyphs for mapped characters)"]
+                       "pseudo-glyph fallback on shipped fonts: findPseudo and is_char_supported against the pseudo map read by the independent Silf reader"]
